@@ -555,6 +555,23 @@ func (h *c17h) monitorQuery(f []string, obs, line string) {
 			h.r.Hit("rev-foreign-prefix-same-account")
 			continue
 		}
+		// narrow the signature to the cause, so that a known finding cannot hide a different defect
+		wc := atoi(f[2])
+		if d := h.k.GetDymName(h.ctx(), c17Name(n)); d != nil && wc != 0 && path == 0 {
+			explicit := false
+			for _, c := range d.Configs {
+				if c.ChainId == c17Chain(wc) && c.Path == "" && h.decodeAddr(c.Value) == got {
+					explicit = true
+				}
+			}
+			r, isRA := h.f.App.RollappKeeper.GetRollapp(h.ctx(), c17Chain(wc))
+			switch {
+			case explicit:
+				kind = "fallback-ignores-explicit-record-for-the-rollapp"
+			case got == "-" && isRA && r.GenesisInfo.Bech32Prefix == "":
+				kind = "fallback-on-rollapp-without-bech32-prefix"
+			}
+		}
 		h.violate("C17/resolve_agree/reverse-candidate-"+kind,
 			fmt.Sprintf("reverse(%s on c%s) lists %s, which resolves to %s", f[1], f[2], tok, got),
 			line, fmt.Sprintf("res %d %d %s", path, n, handle))
